@@ -32,7 +32,7 @@ fuzz_target!(|data: &[u8]| {
             flush.push(u.arbitrary().unwrap_or(false));
         }
         let drop_after = (u.arbitrary::<u8>().unwrap_or(0) as usize) % (n + 1);
-        check_write(&WriteCase { stdfs: false, append, existing, chunks, flush, drop_after })
+        check_write(&WriteCase { stdfs: false, append, existing, chunks, flush, drop_after, prelude: u.arbitrary::<u8>().unwrap_or(0) })
     } else {
         let dl = (u.arbitrary::<u16>().unwrap_or(0) % 300) as usize;
         let data = u.bytes(dl.min(u.len())).map(|x| x.to_vec()).unwrap_or_default();
